@@ -652,7 +652,7 @@ def gen_shape(rng, cls, tier):
                 t = 2 * r                      # inner radius exactly 0
             if r - t / 2 >= 0:
                 break
-        case["r"], case["t"] = (None if (rng.random() < 0.1 and min(N) // 2 - t / 2 >= 0) else r), t
+        case["r"], case["t"] = (None if (rng.random() < 0.25 and min(N) // 2 - t / 2 >= 0) else r), t
         case["calls"] = _soft_calls(rng, shell=True)
     else:
         case["fn"] = "e_shell"
